@@ -152,13 +152,15 @@ def recording_in_domain(data, md):
     # serializer again (get_data / the player's output comparison). The first stage can return a graph that is equal but
     # *shares differently* (a py/id resolved to another, equal, object), which only the second stage turns into a wrong value.
     try:
-        for whole, pick in (({'recording_data': data, 'recording_metadata': md}, lambda d: d['recording_data']),
-                            (dict(data, _metadata=md), lambda d: d)):
+        for whole, pick, envelope in (({'recording_data': data, 'recording_metadata': md}, lambda d: d['recording_data'], None),
+                                      (dict(data, _metadata=md), lambda d: d, '_metadata')):
             d1 = _jp_decode(_jp_encode(whole, unpicklable=True))
             if not teq(d1, whole):
                 return False
             d1 = pick(d1)
             for k, v in data.items():
+                if k == envelope:
+                    continue      # the S3 layout's own envelope key (what happens to a datum of that name is the cassette's business, not the serializer's)
                 if not teq(_jp_decode(_jp_encode(d1[k], unpicklable=True)), v):
                     return False
     except Exception:
